@@ -221,7 +221,9 @@ func (c *LocalReusableWorkflowCache) FindMetadata(spec string) (*ReusableWorkflo
 	src, err := os.ReadFile(file)
 	if err != nil {
 		c.writeCache(spec, nil) // Remember the workflow file was not found
-		return nil, fmt.Errorf("could not read reusable workflow file for %q: %w", spec, err)
+		// The error contains the file path as it is. Keep the message in one line
+		msg := strings.ReplaceAll(strings.ReplaceAll(err.Error(), "\r", " "), "\n", " ")
+		return nil, fmt.Errorf("could not read reusable workflow file for %q: %s", spec, msg)
 	}
 
 	m, err := parseReusableWorkflowMetadata(src)
